@@ -205,7 +205,10 @@ def _e2e(m0: str, m: str, turns: int, cancel: bool, warm: bool) -> tuple:
         with http_connect(E2EService, client=client) as proxy:
             session = getattr(proxy, m0)()
             for _ in range(turns):
-                session.exchange(batch)
+                try:
+                    session.exchange(batch)
+                except Exception as e:  # noqa: BLE001
+                    return True, f"POST /{m0}/exchange refused a regular turn of the stream its own /init opened: {type(e).__name__}: {str(e)[:120]}"
             session._method = m  # the same tokens, POSTed to /{m}/exchange
             n0 = len(E2E_LOG)
             if cancel:
